@@ -860,7 +860,7 @@ def s20_client_response_mapping(ctx):
         eos = err_arm = None
         for bb in sorted(b.live_blocks()):
             info = b.switch_info(bb)
-            if not info or info["kind"] != "variant" or bb not in after or "macro" in b.term(bb).get("exp", ""):
+            if not info or info["kind"] != "variant" or bb not in after or ("macro" in b.term(bb).get("exp", "") and "matches" not in b.term(bb).get("exp", "")):
                 continue
             labs_all = set(sum(info["arms"].values(), []))
             if labs_all == {"None", "Some"} and from_read(info["on"]) and eos is None:
@@ -1348,7 +1348,25 @@ def s23_argument_errors_reject(ctx):
         b = c[0]
         sites = calls_in([b], "net::command::Parser::get_string", "net::command::Parser::get_bytes")
         if not sites:
-            r.unrec(f, "argument reads", short_span(b.span), "none found")
+            # `iter::from_fn(|| parser.get_string().transpose()).collect::<Result<Vec<_>, _>>()?`: the closure hands the
+            # reader's result on untouched, collecting into a Result stops at the first Err and returns it
+            done_ = False
+            for kb in [x for x in prog.families.get(b.root, []) if x.def_kind == "Closure" and not getattr(x, "spliced", False)]:
+                ks = calls_in([kb], "net::command::Parser::get_string", "net::command::Parser::get_bytes")
+                if not ks:
+                    continue
+                done_ = True
+                rets_ = [ret_origin(kb, d_) for c_, d_, rb_ in ret_classes(kb, 0, lambda e: e.kind == "unwind")]
+                passes = bool(rets_) and all(o_ is not None and peel_var(o_)[0] == "call" and peel_var(o_)[1].split("::")[-1] == "transpose" and peel_var(o_)[2] and peel_var(peel_var(o_)[2][0])[0] == "call" and peel_var(peel_var(o_)[2][0])[3] in {(kb.path, kbb_) for _, kbb_, kt_ in ks} for o_ in rets_)
+                cols = [(cbb_, ct_) for _, cbb_, ct_ in calls_in([b], "std::iter::Iterator::collect") if (ct_.get("dest_ty") or "").startswith(("std::result::Result<", "core::result::Result<")) and origin_mentions(arg_origin(b, ct_, 0), lambda y: y[0] == "agg" and y[1] == "closure" and y[2] == kb.path)]
+                good = passes and len(cols) == 1
+                if good:
+                    oe_, ee_, _sw = try_edges(b, cols[0][0])
+                    rs_ = [c2 for e_ in (ee_ or []) for c2, dd, rb in ret_classes(b, e_.dst, lambda e: e.kind == "unwind")]
+                    good = bool(ee_) and bool(rs_) and all(c2 == "err" for c2 in rs_)
+                r.add(f, "%s error ⇒ Err" % strip_generics(ks[0][2]["callee"]).split("::")[-1], good, where(kb, ks[0][1]), "" if good else "the reader's result is not handed on untouched into a collect::<Result<..>>()? — an argument error may end the list instead of rejecting the command")
+            if not done_:
+                r.unrec(f, "argument reads", short_span(b.span), "none found")
             continue
         for _, bb, t in sites:
             site = (b.path, bb)
